@@ -11,7 +11,9 @@
   Not provable here: termination of rejection loops on the PRNG (probabilistic); the dynamic
   Go type produced by `Make` (reflection).
 -/
+import RapidModel.Generated.Consts
 import RapidProofs.Contracts
+import RapidModel.Minimize
 
 namespace Rapid.C03
 
@@ -36,5 +38,9 @@ theorem invalid_range_rejected (ft : FT) (min max : UInt64) (bias : Bool) (fuel 
 
 /-- the hypotheses are satisfiable: a biased draw from `[3, 10]` on a concrete buffer -/
 example : (3 : UInt64) ≤ 10 := by decide
+
+/-! ### facts re-read from /repo's source on every run -/
+
+theorem small_source : Rapid.Generated.c_small = small.toNat := by decide
 
 end Rapid.C03
